@@ -1292,6 +1292,23 @@ fn shm_err_name(e: &ShmError) -> &'static str {
     }
 }
 
+/// Marker appended to the choices of a call that was run in full although it spins (see `full_spin_once`):
+/// replaying the path must run that call in full again, or the reader is left in another state.
+pub const FULL_SPIN_MARK: u32 = u32::MAX;
+
+/// Replay one earlier call of a path (honouring the full-spin marker).
+fn replay_call(run: &mut ReaderRun, c: &[u32], normal_cut_after: u64) {
+    let full = c.last() == Some(&FULL_SPIN_MARK);
+    let choices: Vec<u32> = if full { c[..c.len() - 1].to_vec() } else { c.to_vec() };
+    if full {
+        with(|e| e.cut_after = u64::MAX);
+    }
+    let _ = one_call(run, choices);
+    if full {
+        with(|e| e.cut_after = normal_cut_after);
+    }
+}
+
 /// One snapshot() call with the given choice prefix. Returns (result, returned record, choices taken).
 fn one_call(run: &mut ReaderRun, prefix: Vec<u32>) -> (CallResult, Option<Rec>, Vec<(u32, u32)>, CallStats) {
     with(|e| e.begin_call(prefix));
@@ -1396,13 +1413,14 @@ pub fn explore_reader(
                     Err(_) => return Err("reader attach is not deterministic".into()),
                 };
                 for c in &path[1..] {
-                    let _ = one_call(&mut run, c.clone());
+                    replay_call(&mut run, c, cfg.cut_after);
                 }
                 let before = rstate(&run.reader);
                 if before != *state {
                     return Err(format!("replay divergence: state after replaying {} calls differs", path.len() - 1));
                 }
                 let (mut result, mut returned, mut tk, mut cstats) = one_call(&mut run, prefix.clone());
+                let mut ran_in_full = false;
                 stats.executions += 1;
                 if result == CallResult::CutSpin {
                     stats.cut_spins += 1;
@@ -1414,9 +1432,12 @@ pub fn explore_reader(
                         with(|e| e.begin_call(path[0].clone()));
                         let mut run2 = open_reader(&cpath).map_err(|_| "reader attach is not deterministic".to_string())?;
                         for c in &path[1..] {
-                            let _ = one_call(&mut run2, c.clone());
+                            replay_call(&mut run2, c, u64::MAX);
                         }
+                        with(|e| e.cut_after = u64::MAX);
                         let full = one_call(&mut run2, prefix.clone());
+                        with(|e| e.cut_after = cfg.cut_after);
+                        ran_in_full = true;
                         stats.full_spins += 1;
                         result = full.0;
                         returned = full.1;
@@ -1441,7 +1462,7 @@ pub fn explore_reader(
                 let devs = tk.iter().filter(|t| t.0 > 0).count() as u32;
                 stats.deviations_max = stats.deviations_max.max(devs);
                 let mut full_path = path.clone();
-                full_path.push(tk.iter().map(|t| t.0).collect());
+                full_path.push(tk.iter().map(|t| t.0).chain(if ran_in_full { Some(FULL_SPIN_MARK) } else { None }).collect());
                 let tr = Transition { attach, path: full_path.clone(), before: state.clone(), after: after.clone(), result: result.clone(), returned, stats: cstats };
                 if !on_transition(&tr) {
                     stop = true;
@@ -1499,7 +1520,8 @@ pub fn replay_path(trace: &Trace, cfg: &ExploreCfg, attach: u32, path: &[Vec<u32
     let mut run = open_reader(&cpath).map_err(|e| format!("attach refused: {}", shm_err_name(&e)))?;
     let mut out = vec![];
     for c in path.iter().skip(1) {
-        let (r, rec, _, st) = one_call(&mut run, c.clone());
+        let choices: Vec<u32> = c.iter().cloned().filter(|x| *x != FULL_SPIN_MARK).collect();
+        let (r, rec, _, st) = one_call(&mut run, choices);
         out.push((r, rec, st));
     }
     drop(run);
